@@ -15,6 +15,8 @@ FixAtoms / FixCom / FixedPlane.
 Reversibility runs include rigid bonds; half of the live simulations also carry a single-particle displacement move,
 and every momentum refresh is checked component by component (a component that keeps its value was not drawn).
 Every fifth energy-order case carries an energy-contributing ASE constraint (Hookean tether, ExternalForce).
+The live simulations refresh momenta, in turn, with the shipped helper, a hand-written draw, and the helper followed
+by removal of the net drift.
 """
 from __future__ import annotations
 
@@ -39,7 +41,7 @@ ASSUMPTIONS = [
     "forced refresh: |2KE/(dof kT) - 1| <= 1e-9 for T >= 1 K (the implementation adds 1e-15 eV to the temperature before scaling)",
     "normality: |z|>5 on mean/variance or KS p<1e-6 flags; re-measured once with 4x the draws",
 ]
-REQUIRED = {"order_runs_with_energy_contributing_constraint": 15, "refresh_components_watched": 3000, "reversibility_runs_with_rigid_bonds": 15, "order_runs_with_reassigned_time_step": 20, "forced_refresh_with_constraints": 30, "reversibility_runs": 150, "reversibility_runs_with_used_integrator": 50, "order_runs_with_used_integrator": 20, "order_triples": 30, "refresh_batches": 4, "forced_refresh": 100, "hmc_trials": 300, "ke_checked_at_criteria": 300}
+REQUIRED = {"refreshes_by_hand-written": 100, "refreshes_by_shipped-then-stationary": 100, "order_runs_with_energy_contributing_constraint": 15, "refresh_components_watched": 3000, "reversibility_runs_with_rigid_bonds": 15, "order_runs_with_reassigned_time_step": 20, "forced_refresh_with_constraints": 30, "reversibility_runs": 150, "reversibility_runs_with_used_integrator": 50, "order_runs_with_used_integrator": 20, "order_triples": 30, "refresh_batches": 4, "forced_refresh": 100, "hmc_trials": 300, "ke_checked_at_criteria": 300}
 SHARD_TIMEOUT = {"quick": 900, "thorough": 3000}
 
 
@@ -348,10 +350,23 @@ def run_hmc(spec, rec):
 
     rng = rng_for("C14h", spec["seed"], spec["j"])
     rec_state = {"ke": None, "n": 0}
+    dist_kind = ["shipped", "hand-written", "shipped-then-stationary"][spec["j"] % 3]
 
     def recording_distribution(context):
         before = context.atoms.get_momenta().copy()
-        maxwell_boltzmann_distribution(context)
+        if dist_kind == "shipped":
+            maxwell_boltzmann_distribution(context)
+        elif dist_kind == "shipped-then-stationary":
+            # the shipped draw post-processed by the user's callable (net drift removed, as ase's Stationary does)
+            maxwell_boltzmann_distribution(context)
+            m_ = context.atoms.get_masses()
+            p_ = context.atoms.get_momenta()
+            context.atoms.set_momenta(p_ - m_[:, None] * p_.sum(0) / m_.sum())
+        else:
+            # the user's own refresh, written out by hand with the simulation's generator
+            m_ = context.atoms.get_masses()
+            context.atoms.set_momenta(context.rng.normal(size=(len(m_), 3)) * np.sqrt(m_ * KB * context.temperature)[:, None])
+        rec.count("refreshes_by_" + dist_kind)
         after = context.atoms.get_momenta()
         # "draws every component": a component that kept its value was not drawn (a continuous draw never repeats one)
         kept = int((after == before).sum()) if before.shape == after.shape and np.abs(before).max() > 0 else 0
